@@ -255,7 +255,7 @@ for _p in ("C07", "C08", "C09"):
     PROPS[_p]["level_note"] = "Proof for the five struct programs of catalogue/structs.json (all payloads, all answers); the program quantifier ('every derive input') is sampled; enum / user-function features and the remaining catalogue types are bounded (Kani + exhaustive native execution). " + PROPS[_p]["level_note"]
 for _p in ("C01", "C02", "C03", "C04", "C12"):
     PROPS[_p]["units"] = PROPS[_p]["units"] + [_DERIVE_VERUS]
-    PROPS[_p]["text"] += " Derived structs: the real expansion for five catalogue structs is proved in Verus unit `derive` against the same postconditions (unbounded payloads)."
+    PROPS[_p]["text"] += " Derived structs: the real expansion for the catalogue structs (nine at this commit, three of them with user-function attributes) is proved in Verus unit `derive` against the same postconditions (unbounded payloads)."
 PROPS["C10"]["units"] = [_DERIVE_VERUS] + PROPS["C10"]["units"]
 PROPS["C10"]["text"] += " UNBOUNDED part (Verus unit `derive`): the real expansion for two unit-only enums (rename_all = lowercase with a renamed variant; rename_all = camelCase on PascalCase identifiers) is proved for every payload: the variant chosen is exactly the one whose effective name equals the string, any other string yields one UnknownValue report with all effective names in declaration order at the enum's location, any non-string one kind error listing String. Internally tagged enum (tag `type`, container rename_all = camelCase, a renamed variant, a variant-level rename_all = lowercase, a defaulted field, two variants sharing a field name with different types): the real expansion is proved for every payload and every position of the tag: an absent tag is MissingField(tag) at the enum, a non-string tag a kind error at the tag's own location, a string naming no variant an error at the enum, otherwise exactly the variant whose effective name equals the string is built from the remaining entries by that variant's field rules alone (relative to the value-source contract of Map::remove: it takes out the first entry under the key and only it)."
 PROPS["C10"]["level"] = "proof"
@@ -311,6 +311,17 @@ for _p in ("C07", "C08", "C09", "C10", "C11", "C12"):
 PROPS["C11"]["text"] += " The hand-over of a conversion error to the container's error type is compared event by event (obligation user_function_errors_handed_over_at_the_field_or_container_location): same position in the trace, same location."
 PROPS["C15"]["text"] += " Three-member objects in all six orders (native execution only, bounded): Camel, Lower, DefFirst, Tagged (tag at every position), TagDeny."
 PROPS["C15"]["level_note"] = PROPS["C15"]["level_note"].replace(" Objects of exactly 2 members.", " Objects of exactly 2 members under Kani; 3 members in all 6 orders by exhaustive native execution.")
+
+# user-function attributes under contract in the Verus derive unit (catalogue programs Conv, Hooks, Valid)
+PROPS["C11"]["units"] = [_DERIVE_VERUS] + PROPS["C11"]["units"]
+_DERIVE_VERUS["ce_harnesses"].update({"for Conv ": ["derive_conv8_2", "derive_ferr10_2", "derive_refs13_2"], "for Hooks<": ["derive_fns5_2"], "for Valid ": ["derive_conv8_2"]})
+_FNS_TEXT = " User-function attributes in the Verus catalogue (programs Conv: try_from + from; Hooks: default + map, missing_field_error = f, deny_unknown_fields = f; Valid: validate over converted fields), unbounded in the payload and the answers: every call site of a conversion function is proved to pass a successfully deserialized value; the stored value is the conversion of the value under the field's effective key; a conversion failure yields exactly the two hand-overs at the field's location (field's error type, then the container's accumulator) and fails the call; the missing-field function is called with the effective key and the unknown-key function with the key and the exact accepted list, each handed over at the container's location; the validation function receives exactly the value built from the fields, only when all fields are fine, and its failure is handed over at the container's location. Assumed: the user functions are pure functions of their argument; a user error value carries no recorded calls; the intermediate type's `represents` is functional. Not expressible (pure functions): the number of calls and `map` not running when the container fails -- these stay with the call-counting bounded harnesses."
+for _p in ("C08", "C09", "C11"):
+    PROPS[_p]["text"] += _FNS_TEXT
+PROPS["C11"]["technique"] = "Verus on the real derive expansion of three catalogue programs with user-function attributes (call-site preconditions, converted values, hand-over events; unbounded payloads) + " + PROPS["C11"]["technique"]
+PROPS["C11"]["level_note"] = "Level stays model_checking: 'exactly once' (call counts) and 'map is not run when the container fails' are only decided by the bounded call-counting harnesses; the clauses listed in the text are proved (Verus) for the three catalogue programs. " + PROPS["C11"]["level_note"]
+_more("C15", "enum", "derive-order-enum", "harnesses", ["order_maps_3"])
+PROPS["C15"]["text"] += " std map targets (BTreeMap / HashMap<u8, Leaf>): three entries with distinct keys (parsable and unparsable) in all six orders, natively: same map, same multiset of reports."
 
 # C13: container part, bounded
 PROPS["C13"]["units"] = PROPS["C13"]["units"] + [{"kind": "enum", "group": "json-documents", "harnesses": ["json_documents"],
